@@ -20,7 +20,8 @@
    \
   impl.pendingConnects.present = nondet_bool(); impl.readModes.present = nondet_bool(); impl.receiveBuffers.present = nondet_bool(); \
   impl.observers.present = nondet_bool(); impl.observerToSession.present = nondet_bool(); impl.sessionData.present = nondet_bool(); \
-  impl.onCloseCb.set = nondet_bool(); impl.shuttingDown = nondet_bool(); impl.observers.wval.w.cb_set = nondet_bool(); impl.sessionData.wval.cleanup = nondet_bool(); \
+  impl.onCloseCb.set = nondet_bool(); impl.shuttingDown = nondet_bool(); impl.observers.wval.w.cb_set = nondet_bool(); impl.observers.wval.w2.cb_set = nondet_bool(); impl.sessionData.wval.cleanup = nondet_bool(); \
+  G_next_seq = nondet_size_t(); __CPROVER_assume(GI < GJ && G_next_seq < ((size_t)1 << 62) && impl.observers.wval.n <= ((size_t)1 << 40) && OBS_SORTED(impl.observers.wval)); \
   wop.done = nondet_bool(); wop.result.ok = nondet_bool(); wop.abandoned = nondet_bool(); \
   wbuf.hasData = nondet_bool(); wbuf.closed = nondet_bool(); wbuf.flushing = nondet_bool(); wbuf.overflow = nondet_bool(); \
   __CPROVER_assume(impl.readModes.wval <= ReadMode_Disabled && wbuf.cv.n_all < 1000 && wop.cv.n_one < 1000); \
@@ -175,7 +176,8 @@ void h_observe(void)
   __CPROVER_assume(impl.nextObserverId < (uint64_t)-1 && impl.observers.wval.n < ((size_t)1 << 40));
   /* ids handed out so far are below the counter: the new id is not yet in the reverse index */
   __CPROVER_assume(!(impl.observerToSession.present && GOID >= impl.nextObserverId));
-  Impl impl1 = impl;
+  __CPROVER_assume((!(GI < impl.observers.wval.n) || impl.observers.wval.w.id < impl.nextObserverId) && (!(GJ < impl.observers.wval.n) || impl.observers.wval.w2.id < impl.nextObserverId));
+  Impl impl1 = impl; size_t seq1 = G_next_seq;
   uint64_t id = Transport_observe(self, sid, cb);
   IORA_CANARY("h_observe: returns");
   __CPROVER_assert(LOCKFREE(&impl), "LK5 no Transport lock held at return");
@@ -186,6 +188,7 @@ void h_observe(void)
   __CPROVER_assert(impl.observers.present && impl.observers.wval.n == n1 + 1, "OB3 exactly one element is added to the session's list");
   __CPROVER_assert(GI != n1 || (impl.observers.wval.w.id == id && impl.observers.wval.w.cb_set == cb.set), "OB4 ... at the END (registration order == vector order), holding this id and callback");
   __CPROVER_assert(!(GI < n1) || (impl.observers.wval.w.id == vec0.w.id && impl.observers.wval.w.cb_set == vec0.w.cb_set), "OB5 earlier registrations keep their position");
+  __CPROVER_assert(OBS_SORTED(impl.observers.wval) && G_next_seq == seq1 + 1 && (GI != n1 || impl.observers.wval.w.seq == seq1) && (GJ != n1 || (impl.observers.wval.w2.seq == seq1 && impl.observers.wval.w2.id == id)), "OB6 the new registration gets the next sequence number and the list stays sorted by registration (for arbitrary GI < GJ)");
   if (!impl1.observers.present) { IORA_CANARY("h_observe: first observer of the session"); }
 }
 void h_unobserve(void)
@@ -215,6 +218,8 @@ void h_unobserve(void)
   {
     IORA_CANARY("h_unobserve: observer of the witness session");
     __CPROVER_assert(!(impl.observers.present && GI < impl.observers.wval.n) || impl.observers.wval.w.id != id, "UN4 no element of the session's list carries the id any more (so the close fan-out will not call it)");
+    __CPROVER_assert(!(impl.observers.present && GJ < impl.observers.wval.n) || impl.observers.wval.w2.id != id, "UN4b (second witness)");
+    __CPROVER_assert(!impl.observers.present || OBS_SORTED(impl.observers.wval), "UN8 the RELATIVE ORDER of the remaining observers is unchanged: for arbitrary positions GI < GJ of the list afterwards, the observer at GI was registered before the one at GJ (C02: observers run in registration order - the fan-out's increasing-index order rests on this)");
     __CPROVER_assert(!impl1.observers.present || (impl.observers.wval.n <= vec0.n && vec0.n - impl.observers.wval.n <= 1), "UN5 at most that one element is removed");
     __CPROVER_assert(!impl.observers.present || impl.observers.wval.n > 0, "UN6 an emptied list is removed from the map");
     __CPROVER_assert(!(impl1.observers.present && GI < vec0.n && vec0.w.id != id && impl.observers.wval.n == vec0.n) || (impl.observers.wval.w.id == vec0.w.id), "UN7 nothing removed: elements keep their position");
